@@ -31,9 +31,6 @@ func gen(r *rand.Rand, tier string, c int, _ int64) (producer.Cfg, []producer.It
 	}
 	h = append(h, producer.Item{T: "boot"})
 	cur := cfg.GOff
-	// half of the cases never hand out an EMPTY batch with a regressed timestamp (the listed finding
-	// wedges the chain, which would leave long valid chains under-sampled)
-	safeEmpty := r.Intn(2) == 0
 	for i := 0; i < n; i++ {
 		it := producer.Item{T: "step"}
 		x := r.Intn(100)
@@ -68,9 +65,6 @@ func gen(r *rand.Rand, tier string, c int, _ int64) (producer.Cfg, []producer.It
 			default:
 				d = int64(1 + r.Intn(5000))
 			}
-			if d < 0 && safeEmpty && it.Seq == "batch" && len(it.Txs) == 0 {
-				d = 0
-			}
 			it.Ts = cur + d
 			if it.Seq == "batch" {
 				cur = it.Ts
@@ -83,7 +77,7 @@ func gen(r *rand.Rand, tier string, c int, _ int64) (producer.Cfg, []producer.It
 }
 
 func TestVerif(t *testing.T) {
-	rule := "boot (5%: a first boot whose InitChain fails) then 1..40 (quick) / 1..120, every 10th case 1..300 (thorough) production steps; sequencer response 50% non-empty batch (1-5 txs of 1-64 bytes, 5% zero-length, 2.5% one 100 kB tx), 25% empty batch, 12% absent batch, 13% transient error; timestamp delta 15% regress / 10% equal / 75% advance by 1..5000 ms (half of the cases never regress an EMPTY batch); 7% execution errors; initial height from {1,1,2,5,1000}; lazy/normal mode flag random; non-trivial = at least 3 steps and one committed block; distinct = distinct (configuration, history)"
+	rule := "boot (5%: a first boot whose InitChain fails) then 1..40 (quick) / 1..120, every 10th case 1..300 (thorough) production steps; sequencer response 50% non-empty batch (1-5 txs of 1-64 bytes, 5% zero-length, 2.5% one 100 kB tx), 25% empty batch, 12% absent batch, 13% transient error; timestamp delta 15% regress / 10% equal / 75% advance by 1..5000 ms; 7% execution errors; initial height from {1,1,2,5,1000}; lazy/normal mode flag random; non-trivial = at least 3 steps and one committed block; distinct = distinct (configuration, history)"
 	producer.Main(t, "C01", gen, rule, func(cfg producer.Cfg, h []producer.Item, obs []producer.Obs) bool {
 		steps, commits := 0, 0
 		for i, it := range h {
